@@ -38,14 +38,19 @@ func buildStateShape(ctx sdk.Context, k Keeper, nbLo, nbHi, m int) {
 		verifAssume(cfg.Validate(k.authKeeper.AddressCodec()) == nil)
 		must(k.SetBridgeConfig(ctx, id, cfg))
 		// batch-info history
-		nbi := verifSymLen("shape.batchInfos", 1, m)
+		mb := m
+		if nbLo < 2 && mb < 2 {
+			mb = 2 // a history of two batch infos even in the quick tier (the later one may record an empty output)
+		}
+		nbi := verifSymLen("shape.batchInfos", 1, mb)
 		for j := 0; j < nbi; j++ {
 			bi := cfg.BatchInfo
 			out := types.Output{}
 			if j < nbi-1 {
 				bi = symBatchInfo("st.bridge.oldBatch")
 			}
-			if j > 0 {
+			// a batch-info update records the last finalized output — the empty output while nothing is final yet
+			if j > 0 && verifChoice("shape.batchOutputRecorded", 2) == 1 {
 				out = types.Output{OutputRoot: verifSymBytes("st.batch.outRoot", 32), L1BlockNumber: verifSymU64("st.batch.l1h"), L1BlockTime: verifSymTime("st.batch.time"), L2BlockNumber: verifSymU64("st.batch.l2h")}
 			}
 			must(k.SetBatchInfo(ctx, id, bi, out))
